@@ -18,7 +18,7 @@ RULE = ("operation sequences over the name universe {a,b,c,'','1x',u.p,u.q,u_p} 
         "unchanged and exception class; non-trivial = at least one call succeeded and at least one was rejected")
 BOUND = "sequence length <= 2 exhaustive over the alphabet, <= 12 random; name universe of 8; 4/16 hash seeds"
 
-BBS = {"ffd": ["ffd", ["p"], ["q"]], "one": ["one", ["p"], []], "wide": ["wide", ["p", "r"], ["q", "s"]]}
+BBS = {"pintop": ["pintop", ["x"], ["f.q", "o"]], "pintop2": ["pintop2", ["x"], ["f.p", "o"]], "ffd": ["ffd", ["p"], ["q"]], "one": ["one", ["p"], []], "wide": ["wide", ["p", "r"], ["q", "s"]]}
 SUBS = {
     "and2": {"name": "and2", "nodes": [["x", "input", False], ["y", "input", False], ["o", "and", True]],
              "edges": [["x", "o"], ["y", "o"]], "bbs": {}},
@@ -26,6 +26,11 @@ SUBS = {
     "withbb": {"name": "wb", "nodes": [["x", "input", False], ["f.p", "bb_input", False], ["f.q", "bb_output", False],
                                        ["o", "buf", True]], "edges": [["x", "f.p"], ["f.q", "o"]],
                "bbs": {"f": ["ffd", ["p"], ["q"]]}},
+    # children whose outputs are pins of a nested blackbox instance (a bb_output resp. a bb_input marked as output)
+    "pinout": {"name": "po", "nodes": [["x", "input", False], ["f.p", "bb_input", False], ["f.q", "bb_output", True], ["o", "buf", True]],
+               "edges": [["x", "f.p"], ["f.q", "o"]], "bbs": {"f": ["ffd", ["p"], ["q"]]}},
+    "pinin_out": {"name": "pio", "nodes": [["x", "input", False], ["f.p", "bb_input", True], ["f.q", "bb_output", False], ["o", "buf", True]],
+                  "edges": [["x", "f.p"], ["f.q", "o"]], "bbs": {"f": ["ffd", ["p"], ["q"]]}},
     "ffimpl": {"name": "ffi", "nodes": [["p", "input", False], ["q", "buf", True]], "edges": [["p", "q"]], "bbs": {}},
 }
 SEEDS = {
@@ -35,6 +40,11 @@ SEEDS = {
     "withbb": {"name": "c", "nodes": [["a", "input", False], ["u.p", "bb_input", False], ["u.q", "bb_output", False],
                                       ["c", "buf", True], ["b", "and", False]],
                "edges": [["a", "u.p"], ["u.q", "c"], ["a", "b"]], "bbs": {"u": ["ffd", ["p"], ["q"]]}},
+    "nestedpins": {"name": "c", "nodes": [["a", "input", False], ["c", "buf", True], ["d", "buf", True],
+                                          ["w.x", "bb_input", False], ["w.f.q", "bb_output", False], ["w.o", "bb_output", False],
+                                          ["w2.x", "bb_input", False], ["w2.f.p", "bb_output", False], ["w2.o", "bb_output", False]],
+                   "edges": [["a", "w.x"], ["w.f.q", "c"], ["a", "w2.x"], ["w2.f.p", "d"]],
+                   "bbs": {"w": ["pintop", ["x"], ["f.q", "o"]], "w2": ["pintop2", ["x"], ["f.p", "o"]]}},
 }
 
 
@@ -64,6 +74,8 @@ def alphabet():
             ["add_subcircuit", "and2", "s", {"o": "a"}], ["add_subcircuit", "inv", "u", {"p": "a"}],
             ["add_subcircuit", "withbb", "s", {"x": "a", "o": "c"}], ["add_subcircuit", "and2", "s", {"x": "a", "o": "b", "y": "zz"}],
             ["add_subcircuit", "and2", "s", {"zz": "a"}]]
+    ops += [["fill_blackbox", "w", "pinout"], ["fill_blackbox", "w2", "pinin_out"], ["add_subcircuit", "pinout", "s", {"f.q": "c"}],
+            ["add_subcircuit", "pinin_out", "s", {"f.p": "c", "x": "a"}]]
     ops += [["fill_blackbox", "u", "ffimpl"], ["fill_blackbox", "u", "and2"], ["fill_blackbox", "zz", "ffimpl"],
             ["fill_blackbox", "v", "ffimpl"]]
     return ops
@@ -104,7 +116,7 @@ def rand_op(rng):
 
 def cases(tier, seed):
     ops = alphabet()
-    for sname in ("empty", "small", "withbb"):
+    for sname in ("empty", "small", "withbb", "nestedpins"):
         for o in ops:
             yield {"seed": sname, "ops": [o]}
     pairs = list(itertools.product(range(len(ops)), repeat=2))
@@ -115,7 +127,7 @@ def cases(tier, seed):
         yield {"seed": "small" if (i + j) % 3 else "withbb", "ops": [ops[i], ops[j]]}
     n_rand = 1500 if tier == "quick" else 30000
     for i in range(n_rand):
-        yield {"seed": rng.choice(["empty", "small", "withbb"]),
+        yield {"seed": rng.choice(["empty", "small", "withbb", "nestedpins"]),
                "ops": [rand_op(rng) if rng.random() < 0.6 else rng.choice(ops) for _ in range(rng.randint(3, 12))]}
 
 
